@@ -114,7 +114,114 @@ func (m *base) undo(mark int) {
 	}
 }
 
+// unify unifies a and b (bindings stay on the trail also when it fails; callers undo). A failure by clash
+// is examined once more: ISO 7.3.3 calls a pair subject to occurs check if *some* order of the Herbrand
+// algorithm meets a positive occurs check, and the system under test has more than one order (left to
+// right in =/2, the tail before the elements for a partial list in a clause head), so a clash found
+// first from the left does not make the pair safe.
 func (m *base) unify(a, b Term) bool {
+	ok := m.unify1(a, b)
+	if !ok && !m.sto {
+		x, xo := deref(a).(*Comp)
+		y, yo := deref(b).(*Comp)
+		if xo && yo && x.f == y.f && len(x.args) == len(y.args) && m.cyclicClosure(x, y) {
+			m.sto = true
+		}
+	}
+	return ok
+}
+
+// cyclicClosure builds the congruence closure of a = b over the current bindings without stopping at
+// clashes and reports whether it has a cycle (an over-approximation of "some order meets a positive
+// occurs check": every equation any order derives before it stops is in the closure).
+func (m *base) cyclicClosure(a, b Term) bool {
+	type node struct {
+		parent int
+		comps  []*Comp
+	}
+	var nodes []node
+	index := map[Term]int{}
+	mk := func(t Term) int {
+		t = deref(t)
+		switch t.(type) {
+		case *Var, *Comp:
+		default:
+			return -1 // atomic: no arguments, never part of a cycle
+		}
+		if n, ok := index[t]; ok {
+			return n
+		}
+		n := len(nodes)
+		nd := node{parent: n}
+		if c, ok := t.(*Comp); ok {
+			nd.comps = []*Comp{c}
+		}
+		nodes = append(nodes, nd)
+		index[t] = n
+		return n
+	}
+	find := func(n int) int {
+		for nodes[n].parent != n {
+			nodes[n].parent = nodes[nodes[n].parent].parent
+			n = nodes[n].parent
+		}
+		return n
+	}
+	type pair struct{ x, y int }
+	work := []pair{{mk(a), mk(b)}}
+	for len(work) > 0 {
+		m.tick()
+		p := work[len(work)-1]
+		work = work[:len(work)-1]
+		if p.x < 0 || p.y < 0 {
+			continue
+		}
+		rx, ry := find(p.x), find(p.y)
+		if rx == ry {
+			continue
+		}
+		for _, cx := range nodes[rx].comps {
+			for _, cy := range nodes[ry].comps {
+				if cx.f == cy.f && len(cx.args) == len(cy.args) {
+					for k := range cx.args {
+						work = append(work, pair{mk(cx.args[k]), mk(cy.args[k])})
+					}
+				}
+			}
+		}
+		nodes[ry].parent = rx
+		nodes[rx].comps = append(nodes[rx].comps, nodes[ry].comps...)
+	}
+	state := map[int]int{}
+	var visit func(c int) bool
+	visit = func(c int) bool {
+		switch state[c] {
+		case 1:
+			return true
+		case 2:
+			return false
+		}
+		m.tick()
+		state[c] = 1
+		for _, cm := range nodes[c].comps {
+			for _, x := range cm.args {
+				if n := mk(x); n >= 0 && visit(find(n)) {
+					return true
+				}
+			}
+		}
+		state[c] = 2
+		return false
+	}
+	for n := 0; n < len(nodes); n++ {
+		if visit(find(n)) {
+			return true
+		}
+	}
+	return false
+}
+
+func (m *base) unify1(a, b Term) bool {
 	m.tick()
 	a, b = deref(a), deref(b)
 	if a == b {
@@ -144,7 +251,7 @@ func (m *base) unify(a, b Term) bool {
 			return false
 		}
 		for i := range x.args {
-			if !m.unify(x.args[i], y.args[i]) {
+			if !m.unify1(x.args[i], y.args[i]) {
 				return false
 			}
 		}
